@@ -30,8 +30,24 @@ import (
 //	clean     no access sits inside a function literal, go or defer statement,
 //	          there is exactly one lock call, and no unlock precedes an access
 //
-// Model/CacheStore.v demands properties of this table (check_locks); nothing is
-// compared with a stored copy, so harmless rewrites do not trip it.
+// A second table, "callers", has one row per function of those files that is NOT a
+// method of a lock-owning struct but calls lock-taking methods of one (Map.Set ->
+// shard.set, ShardedLRU.Add -> ConcurrentLRU.Add, ...):
+//
+//	(name, acquisitions, direct)
+//
+//	acquisitions  the largest number of call sites of lock-taking methods on one
+//	              control-flow path through the body (if/else and switch arms are
+//	              alternatives, a loop body counts once: "for every shard ...").
+//	              More than one means the operation is split over several critical
+//	              sections (check, unlock, lock again, act).
+//	direct        the body also touches a protected field itself
+//
+// A method of a lock-owning struct that calls another lock-taking method is marked
+// not clean in the first table.
+//
+// Model/CacheStore.v demands properties of these tables (check_locks, check_callers);
+// nothing is compared with a stored copy, so harmless rewrites do not trip it.
 func init() {
 	register(generator{file: "LockFacts.v", title: "Lock discipline of concurrent_map.shard and concurrent_lru.ConcurrentLRU methods.", run: genLocks})
 }
@@ -369,9 +385,157 @@ func analyseLocks(pf *pfile, fd *ast.FuncDecl, structs []*lockedStruct) (row loc
 	return row, relevant
 }
 
+// lockingCall reports whether e calls (by method name) one of the lock-taking methods.
+func lockingCallName(e ast.Expr, locking map[string]bool) bool {
+	ce, ok := e.(*ast.CallExpr)
+	if !ok {
+		return false
+	}
+	se, ok := ce.Fun.(*ast.SelectorExpr)
+	if !ok || !locking[se.Sel.Name] {
+		return false
+	}
+	// inside a lock owner's own method only calls on the receiver count (c.Add, not c.lru.Add)
+	if self := locking["\x00self"]; self {
+		return exprString(se.X) == selfName
+	}
+	return true
+}
+
+// selfName is the receiver name while a lock owner's own method is being walked.
+var selfName string
+
+// countCalls: number of lock-taking call sites inside an expression or simple statement
+// (function literals are not entered: they run later, if at all).
+func countCalls(n ast.Node, locking map[string]bool) int {
+	c := 0
+	if n == nil {
+		return 0
+	}
+	ast.Inspect(n, func(x ast.Node) bool {
+		if _, ok := x.(*ast.FuncLit); ok {
+			return false
+		}
+		if e, ok := x.(ast.Expr); ok && lockingCallName(e, locking) {
+			c++
+		}
+		return true
+	})
+	return c
+}
+
+// pathCalls: the largest number of lock-taking call sites along one path through the
+// statements; done = every path ends in a return.
+func pathCalls(stmts []ast.Stmt, locking map[string]bool) (n int, done bool) {
+	for _, st := range stmts {
+		switch x := st.(type) {
+		case *ast.BlockStmt:
+			k, d := pathCalls(x.List, locking)
+			n += k
+			if d {
+				return n, true
+			}
+		case *ast.IfStmt:
+			n += countCalls(x.Init, locking) + countCalls(x.Cond, locking)
+			a, da := pathCalls(x.Body.List, locking)
+			b, db := 0, false
+			if x.Else != nil {
+				b, db = pathCalls([]ast.Stmt{x.Else}, locking)
+			}
+			// paths that return inside an arm do not continue below
+			switch {
+			case da && db:
+				if b > a {
+					a = b
+				}
+				return n + a, true
+			case da && !db:
+				rest, dr := pathCalls(stmts[indexOf(stmts, st)+1:], locking)
+				if n+b+rest > n+a {
+					return n + b + rest, dr
+				}
+				return n + a, false
+			case !da && db:
+				rest, dr := pathCalls(stmts[indexOf(stmts, st)+1:], locking)
+				if n+a+rest > n+b {
+					return n + a + rest, dr
+				}
+				return n + b, false
+			default:
+				if b > a {
+					a = b
+				}
+				n += a
+			}
+		case *ast.SwitchStmt, *ast.TypeSwitchStmt, *ast.SelectStmt:
+			var body *ast.BlockStmt
+			switch y := x.(type) {
+			case *ast.SwitchStmt:
+				n += countCalls(y.Init, locking) + countCalls(y.Tag, locking)
+				body = y.Body
+			case *ast.TypeSwitchStmt:
+				body = y.Body
+			case *ast.SelectStmt:
+				body = y.Body
+			}
+			best := 0
+			for _, cl := range body.List {
+				var list []ast.Stmt
+				switch c := cl.(type) {
+				case *ast.CaseClause:
+					list = c.Body
+				case *ast.CommClause:
+					list = c.Body
+				}
+				if k, _ := pathCalls(list, locking); k > best {
+					best = k
+				}
+			}
+			n += best
+		case *ast.ForStmt:
+			n += countCalls(x.Init, locking) + countCalls(x.Cond, locking) + countCalls(x.Post, locking)
+			k, _ := pathCalls(x.Body.List, locking)
+			n += k
+		case *ast.RangeStmt:
+			n += countCalls(x.X, locking)
+			k, _ := pathCalls(x.Body.List, locking)
+			n += k
+		case *ast.ReturnStmt:
+			n += countCalls(x, locking)
+			return n, true
+		case *ast.LabeledStmt:
+			k, d := pathCalls([]ast.Stmt{x.Stmt}, locking)
+			n += k
+			if d {
+				return n, true
+			}
+		default:
+			n += countCalls(st, locking)
+		}
+	}
+	return n, false
+}
+
+func indexOf(stmts []ast.Stmt, st ast.Stmt) int {
+	for i, x := range stmts {
+		if x == st {
+			return i
+		}
+	}
+	return len(stmts)
+}
+
+type callerRow struct {
+	name         string
+	acquisitions int
+	direct       bool
+	note         string
+}
+
 func genLocks(o *out) {
 	files := []string{"pkg/concurrent_map/map.go", "pkg/concurrent_lru/concurrent_lru.go"}
 	var rows []lockRow
+	var callers []callerRow
 	for _, file := range files {
 		pf, err := parseFile(filepath.Join(repo, file))
 		if err != nil {
@@ -383,6 +547,13 @@ func genLocks(o *out) {
 			o.missing("table", file+": no struct with a sync.Mutex/sync.RWMutex field found")
 			continue
 		}
+		owners := map[string]bool{}
+		for _, ls := range structs {
+			owners[ls.name] = true
+		}
+		var fileRows []lockRow
+		var fileDecls []*ast.FuncDecl
+		locking := map[string]bool{} // names of methods of lock owners that take the lock
 		for _, d := range pf.f.Decls {
 			fd, ok := d.(*ast.FuncDecl)
 			if !ok || fd.Body == nil {
@@ -391,8 +562,51 @@ func genLocks(o *out) {
 			row, rel := analyseLocks(pf, fd, structs)
 			if rel {
 				row.note = file + ":" + strings.TrimSpace(row.note)
-				rows = append(rows, row)
+				fileRows = append(fileRows, row)
+				fileDecls = append(fileDecls, fd)
+				if rt, _ := recvInfo(fd); owners[rt] && row.open != 0 {
+					locking[fd.Name.Name] = true
+				}
 			}
+		}
+		// a lock owner's method that calls another lock-taking method: not one section
+		for i, fd := range fileDecls {
+			if rt, rn := recvInfo(fd); owners[rt] {
+				locking["\x00self"], selfName = true, rn
+				k, _ := pathCalls(fd.Body.List, locking)
+				delete(locking, "\x00self")
+				if k > 0 {
+					fileRows[i].clean = false
+					fileRows[i].note += " calls-lock-taking-method"
+				}
+			}
+		}
+		rows = append(rows, fileRows...)
+		// everybody else who calls lock-taking methods
+		for _, d := range pf.f.Decls {
+			fd, ok := d.(*ast.FuncDecl)
+			if !ok || fd.Body == nil {
+				continue
+			}
+			rt, _ := recvInfo(fd)
+			if owners[rt] {
+				continue
+			}
+			k, _ := pathCalls(fd.Body.List, locking)
+			if k == 0 {
+				continue
+			}
+			name := fd.Name.Name
+			if rt != "" {
+				name = rt + "." + name
+			}
+			direct := false
+			for i, fd2 := range fileDecls {
+				if fd2 == fd && (fileRows[i].writes || fileRows[i].reads) {
+					direct = true
+				}
+			}
+			callers = append(callers, callerRow{name: name, acquisitions: k, direct: direct, note: file})
 		}
 	}
 	b := func(v bool) string {
@@ -409,6 +623,16 @@ func genLocks(o *out) {
 			sep = ""
 		}
 		fmt.Fprintf(&o.buf, "  (\"%s\"%%string, %d, %s, %s, %s, %s)%s (* %s *)\n", r.name, r.open, b(r.released), b(r.writes), b(r.reads), b(r.clean), sep, r.note)
+	}
+	fmt.Fprintf(&o.buf, "].\n\n")
+	fmt.Fprintf(&o.buf, "(* (name, lock acquisitions of one operation on one path, touches a protected field itself) *)\n")
+	fmt.Fprintf(&o.buf, "Definition callers : list (string * N * bool) := [\n")
+	for i, r := range callers {
+		sep := ";"
+		if i == len(callers)-1 {
+			sep = ""
+		}
+		fmt.Fprintf(&o.buf, "  (\"%s\"%%string, %d, %s)%s (* %s *)\n", r.name, r.acquisitions, b(r.direct), sep, r.note)
 	}
 	fmt.Fprintf(&o.buf, "].\n")
 }
